@@ -1,1 +1,30 @@
 //! Verification hooks (`--cfg rustrtc_verif` only): dtls.
+//!
+//! Key log: every key derivation of every `DtlsTransport` (the handshake context is a local of the
+//! run loop, so keys of a handshake that later fails are otherwise unobservable).  The harness needs
+//! them to compute AEAD and verify_data ground truth independently.
+use crate::transports::dtls::SessionKeys;
+use parking_lot::Mutex;
+
+static KEYLOG: Mutex<Vec<(usize, bool, SessionKeys)>> = Mutex::new(Vec::new());
+
+pub fn log_keys(instance: usize, is_client: bool, keys: Option<&SessionKeys>) {
+    if let Some(k) = keys {
+        KEYLOG.lock().push((instance, is_client, k.clone()));
+    }
+}
+
+/// Removes and returns the keys logged for `instance` (see `DtlsTransport::verif_instance_id`), oldest first.
+pub fn take_keys(instance: usize) -> Vec<SessionKeys> {
+    let mut log = KEYLOG.lock();
+    let mut out = Vec::new();
+    log.retain(|(i, _, k)| {
+        if *i == instance {
+            out.push(k.clone());
+            false
+        } else {
+            true
+        }
+    });
+    out
+}
